@@ -205,6 +205,39 @@ pub fn mutate_numeric(rng: &mut Rng, t: &str) -> String {
     cs.into_iter().collect()
 }
 
+/// The code points at and just beyond every boundary of the white-space table: the ECMA-262
+/// table (known here) and the table in the source under test (JLH_TABLES, written by the
+/// translator).  Any one-entry difference between two tables lies at one of these.
+pub fn ws_edge_chars() -> Vec<char> {
+    let mut ranges: Vec<(u32, u32)> = vec![
+        (9, 13), (32, 32), (160, 160), (5760, 5760), (8192, 8202), (8232, 8233), (8239, 8239), (8287, 8287), (12288, 12288), (65279, 65279),
+        // Unicode White_Space and look-alikes that are not ECMAScript white space
+        (0x85, 0x85), (0x180e, 0x180e), (0x200b, 0x200d), (0x2060, 0x2060), (0x1c, 0x1f),
+    ];
+    if let Ok(path) = std::env::var("JLH_TABLES") {
+        if let Ok(text) = std::fs::read_to_string(path) {
+            if let Ok(v) = serde_json::from_str::<serde_json::Value>(&text) {
+                for r in v["js_ws_ranges"].as_array().cloned().unwrap_or_default() {
+                    if let (Some(lo), Some(hi)) = (r[0].as_u64(), r[1].as_u64()) {
+                        ranges.push((lo as u32, hi as u32));
+                    }
+                }
+            }
+        }
+    }
+    let mut out = std::collections::BTreeSet::new();
+    for (lo, hi) in ranges {
+        for c in [lo.saturating_sub(1), lo, hi, hi + 1] {
+            if let Some(ch) = char::from_u32(c) {
+                if c != 0 {
+                    out.insert(ch);
+                }
+            }
+        }
+    }
+    out.into_iter().collect()
+}
+
 /// Every single-character insertion of a sign, separator, exponent or radix letter, digit or
 /// blank into a few short literals: the edges of the StringNumericLiteral grammar, enumerated.
 pub fn grammar_edge_strings() -> Vec<String> {
